@@ -224,6 +224,33 @@ def c06_stages(tier):
     return [s for s in prune_stages(tier) if not s.name.startswith('prunea')]
 
 
+# ------------------------------------------------------------------------------------------ linalg (C10, C14, C15, C16)
+def LA(name, cfg, **kw):
+    return Stage(name, 'Trace_Linalg', mc=('MC_Linalg', cfg), shard_events=400, mc_workers=12, **kw)
+
+
+def c14_stages(tier):
+    return [LA('poly-t', 'MC_Linalg_poly_t.cfg')] if tier == 'thorough' else [LA('poly-q', 'MC_Linalg_poly_q.cfg')]
+
+
+def c15_stages(tier):
+    return [LA('clean-t', 'MC_Linalg_clean_t.cfg')] if tier == 'thorough' else [LA('clean-q', 'MC_Linalg_clean_q.cfg')]
+
+
+def c16_stages(tier):
+    return [LA('aff-q', 'MC_Linalg_aff_q.cfg')]
+
+
+def c10_stages(tier):
+    st = [LA('lp-t', 'MC_Linalg_lp_t.cfg')] if tier == 'thorough' else [LA('lp-q', 'MC_Linalg_lp_q.cfg')]
+    # plus every LP call the library makes during pruning scenarios (in-situ, through the LP tap)
+    return st + prune_stages(tier)[:2]
+
+
+LINALG_NOTE = ('Small scope: integer data (exact in f64), dimension <= 3, <= 2-4 rows; rows with irrational norms are outside the exact '
+               'universe and only checked where the result stays rational. Trusted: TLC, FM (SelfTest), the JSON projection.')
+
+
 def fault_stages(tier):
     if tier == 'thorough':
         return [HS('fault-t', 'MC_AffTree_fault_t.cfg')]
@@ -290,6 +317,55 @@ CHECKS = {
         'design_ref': 'DESIGN.md 6/C03',
         'rule': 'one history script per (tree, pipeline[, right operand]); non-trivial = left tree has a decision',
         'assumptions': ['E-universe integer data; q=1', 'predicate alphabets contain strictly feasible, closed-empty, zero-width and zero-row cases'],
+    },
+    'C14': {
+        'stages': c14_stages,
+        'level_text': 'A calculator machine over polytopes: every constructor (rows, hypercube, hyperrectangle, axis_bounds with infinite bounds, '
+                      'unbounded, empty, simplex, cross_polytope, from_normal, intersection_n of nothing) followed by pipelines of translate / '
+                      'intersection(_n) / apply_pre / apply_post / rotate with vectors, maps and unimodular / orthogonal matrices from small '
+                      'alphabets. The L1 coefficient formulas are model-checked against the L0 set definitions by FM; every transition is '
+                      'replayed and TLC decides SetEq(result, definition) on the recorded rows, contains() on a half-integer grid including '
+                      'boundary points, and sign and magnitude of distance() for integer-norm rows.',
+        'level_note': LINALG_NOTE,
+        'design_ref': 'DESIGN.md 6/C14',
+        'rule': 'one script per (constructor, pipeline); non-trivial = distinct by canonical hash',
+        'assumptions': ['apply_post / rotate are checked with integer matrices whose inverse is integer (image pulled back through the map)'],
+    },
+    'C15': {
+        'stages': c15_stages,
+        'level_text': 'All systems of <= 2 (3) rows from an alphabet of duplicates, positively / negatively scaled copies, parallel rows, zero rows '
+                      'with bias -1/0/1, equality pairs, empty and unbounded sets, through each clean-up: TLC decides on the recorded result that '
+                      'the point set is unchanged (or canonical empty for an infeasible input), that the result rows are a subsequence of the input '
+                      'rows (up to a positive factor for normalize, by cross-multiplication), that nothing the operation promises to drop is left, '
+                      'and for remove_redundant_row_constraints that no remaining row is implied by the others by a margin (exact maximum by FM).',
+        'level_note': LINALG_NOTE + ' remove_rows is checked for dropping exactly the requested rows.',
+        'design_ref': 'DESIGN.md 6/C15',
+        'rule': 'one script per (system, operation); non-trivial = distinct by canonical hash',
+        'assumptions': ['normalize only on rows with integer norm (results logged at scale 30)'],
+    },
+    'C16': {
+        'stages': c16_stages,
+        'level_text': 'Every named constructor in dimensions 1-4 with every index / parameter of the alphabet, compose / stack over all '
+                      'dimension-compatible pairs, + - * / % in all ownership variants, negation (three forms), row, row_iter, remove_rows, '
+                      'remove_zero_rows, remove_zero_columns, from_row_iter, view/owned, as_polytope / as_function, every PolyRepr: TLC compares the '
+                      'recorded coefficients with the documented definition (affine maps are equal iff their coefficients are) and evaluates '
+                      'compose(f,g)(x) = f(g(x)) and apply on a grid.',
+        'level_note': LINALG_NOTE,
+        'design_ref': 'DESIGN.md 6/C16',
+        'rule': 'one script per (operation, arguments); non-trivial = distinct by canonical hash',
+        'assumptions': ['% is the truncated remainder of f64 on integers', 'division pairs have exact quotients and no zero divisor'],
+    },
+    'C10': {
+        'stages': c10_stages,
+        'level_text': 'All systems of <= 2 rows over {-1,0,1}^2 x {-1,0,1} (and 3-4 rows from a sub-alphabet with zero rows, parallel rows, '
+                      'equality pairs, empty and unbounded sets) x 5 objectives: TLC decides with exact FM procedures (interior, feasibility, exact '
+                      'minimum) that status / is_feasible / solve_linprog answer within what the property allows, that witnesses lie in the set, '
+                      'that the Chebyshev program is the documented one and its solution the inradius; plus every LP the library itself asks '
+                      'during pruning scenarios (LP tap).',
+        'level_note': LINALG_NOTE + ' Zero-width sets may be answered either way (property text).',
+        'design_ref': 'DESIGN.md 6/C10',
+        'rule': 'one script per (system, objective); non-trivial = distinct by canonical hash',
+        'assumptions': ['minilp back end (crate default); HiGHS is not built'],
     },
     'C11': {
         'stages': fault_stages,
